@@ -13,6 +13,15 @@ Proof. exact name_from_type_spec. Qed.
 Print Assumptions C18_name_from_type.
 
 (* ToNNX merging the updates of mutable collections: exactly the updated leaves change, at any depth *)
+(* register_variable_name(name, typ, overwrite): afterwards the name maps to the type and every other name keeps its type
+   (so a type that lost its name is looked up afresh); without overwrite a taken name is refused *)
+Theorem C18_register_spec : forall r nm t ow r', reg_register r nm t ow = Some r' ->
+  forall nm', type_of_name r' nm' = if N.eqb nm nm' then Some t else type_of_name r nm'.
+Proof. exact register_spec. Qed.
+Theorem C18_register_refuses_taken_name : forall r nm t t0, type_of_name r nm = Some t0 -> reg_register r nm t false = None.
+Proof. exact register_refuses_taken_name. Qed.
+Print Assumptions C18_register_spec.
+
 Theorem C18_merge_updates : forall a upd q,
   fm_get q (merge_updates a upd) = match fm_get q (to_nnx upd) with Some v => Some v | None => fm_get q a end.
 Proof. exact merge_updates_get. Qed.
